@@ -49,6 +49,14 @@ func HarnessC01Pollard() {
 // c01RememberFlags: partial forests get case-split Remember flags on the additions.
 func c01RememberLeaves(adds []Hash) []Leaf {
 	out := make([]Leaf, len(adds))
+	if verifParam("remMode", 0) == 1 && len(adds) > 0 {
+		// cheaper: one flag for all additions of the block
+		r := verifChoose("rememberAll", 0, 1) == 1
+		for i := range adds {
+			out[i] = Leaf{Hash: adds[i], Remember: r}
+		}
+		return out
+	}
 	for i := range adds {
 		out[i] = Leaf{Hash: adds[i], Remember: verifChoose("remember", 0, 1) == 1}
 	}
